@@ -31,6 +31,9 @@ type Engine struct {
 	axioms    []*AxiomSpec
 	nullable  map[string]bool // nullable external fields
 	ghostFields map[string]string
+	evalWanted map[string][]string // package path -> variable names
+	evalValues map[string]interface{} // "pkgpath.name" -> decoded JSON
+	evalDone   map[string]bool
 	libFiles  []string
 	notes     map[string]bool
 	repoDir   string
@@ -54,7 +57,7 @@ func loadEngine(repoDir string, libDir string) (*Engine, error) {
 	}
 	e := &Engine{
 		pkgs: map[string]*packages.Package{}, funcs: map[string]*FuncInfo{}, contracts: map[string]*Contract{},
-		specFuncs: map[string]*SpecFunc{}, nullable: map[string]bool{}, ghostFields: map[string]string{}, notes: map[string]bool{}, repoDir: repoDir,
+		specFuncs: map[string]*SpecFunc{}, nullable: map[string]bool{}, ghostFields: map[string]string{}, evalWanted: map[string][]string{}, evalValues: map[string]interface{}{}, evalDone: map[string]bool{}, notes: map[string]bool{}, repoDir: repoDir,
 	}
 	var errs []string
 	packages.Visit(pkgs, nil, func(p *packages.Package) {
@@ -169,6 +172,7 @@ func (e *Engine) addSpecFile(sf *SpecFile) error {
 	for k, v := range sf.GhostFields {
 		e.ghostFields[k] = v
 	}
+	e.evalWanted[sf.Pkg] = append(e.evalWanted[sf.Pkg], sf.Evaluated...)
 	return nil
 }
 
